@@ -38,6 +38,12 @@ fn main() {
                 writeln!(out, "{}", gram::generate(&line)).unwrap();
             }
         }
+        "meta" => {
+            for line in stdin.lock().lines() {
+                let line = line.unwrap();
+                writeln!(out, "{}", gram::meta(&line)).unwrap();
+            }
+        }
         "vm" => {
             for line in stdin.lock().lines() {
                 let line = line.unwrap();
